@@ -127,6 +127,26 @@ def _expand(atom_list, node):
                     out.extend(_expand(sub, node))
                     out.append(a)
                     continue
+        if isinstance(n, ast.BoolOp) and any(
+                isinstance(v, ast.Name) and hasattr(v, "_parent")
+                for v in n.values):
+            if R is None:
+                R = _resolver_for(node)
+            vals, changed = [], False
+            for v in n.values:
+                rv = R.reaching_value(v) if (
+                    R is not None and isinstance(v, ast.Name)
+                    and hasattr(v, "_parent")) else None
+                if rv is not None and isinstance(rv, (ast.BoolOp, ast.Compare,
+                                                      ast.UnaryOp)):
+                    vals.append(rv)
+                    changed = True
+                else:
+                    vals.append(v)
+            if changed:
+                new = ast.BoolOp(op=n.op, values=vals)
+                ast.copy_location(new, n)
+                out.append(Atom(new, a.pol, a.origin))
         out.append(a)
     return out
 
@@ -201,6 +221,21 @@ def _earlier(block, child) -> list[Atom]:
         elif isinstance(st, ast.Assert):
             out.extend(atoms(st.test, True, st))
     return out
+
+
+def from_early_exit(atom, node) -> bool:
+    """the fact comes from an earlier `if c: <leave>` sibling (it holds on
+    every path that gets as far as `node`), not from a test enclosing
+    `node`"""
+    o = atom.origin
+    if not isinstance(o, (ast.If, ast.Assert)):
+        return False
+    p = getattr(node, "_parent", None)
+    while p is not None:
+        if p is o:
+            return False
+        p = getattr(p, "_parent", None)
+    return True
 
 
 def holds(conds, text, pol=True) -> bool:
